@@ -84,6 +84,18 @@ def run(v, tier, seed, replay):
         if p.returncode != 0 or "ERROR: AddressSanitizer" in p.stderr or "ERROR: LeakSanitizer" in p.stderr or "runtime error:" in p.stderr:
             kind = "leak" if "LeakSanitizer" in p.stderr else ("undefined-behaviour" if "runtime error:" in p.stderr else "memory-error")
             v.violation("solver/%s" % kind, "solver history under ASan rc=%s: %s" % (p.returncode, p.stderr[-1200:]), {"script": cmds})
+    # solver objects of every dimension in one process, smallest first and largest first, each evolved and queried through every
+    # query overload (scratch space sized on first use, per process or per thread, must fit whoever comes later)
+    for order in ([2, 3, 4, 5, 6], [6, 5, 4, 3, 2], [2, 6, 3, 5, 4]):
+        cmds = ["QUIET 1"]
+        for d_ in order:
+            cmds += ["NEW 1 2 %d 2 1 0" % d_, "CFG 1 grid 1", "STEPPER 1 rkf45 1 400", "TOL 1 1e-3 1e-3", "SW 1 1 1", "QUERY 1", "EVOLVE 1 2", "QUERY 1",
+                     "INI 1 3 %d 1 2 8" % (8 - d_), "CFG 1 grid 2", "QUERY 1", "DESTROY 1"]
+        p = vlib.sh([sexe], stdin="\n".join(cmds) + "\n", timeout=600, env={"ASAN_OPTIONS": "detect_leaks=1:exitcode=77", "UBSAN_OPTIONS": "halt_on_error=1:exitcode=78:print_stacktrace=1"})
+        if p.returncode != 0 or "ERROR: AddressSanitizer" in p.stderr or "ERROR: LeakSanitizer" in p.stderr or "runtime error:" in p.stderr:
+            kind = "leak" if "LeakSanitizer" in p.stderr else ("undefined-behaviour" if "runtime error:" in p.stderr else "memory-error")
+            first = [l.strip() for l in p.stderr.splitlines() if "ERROR:" in l or "runtime error" in l][:1]
+            v.violation("solver/queries/%s" % kind, "solver objects of dimensions %s evolved and queried in one process under ASan: rc=%s %s %s" % (order, p.returncode, first, p.stderr[-700:]), {"script": cmds})
     v.cov["solver_histories_under_asan"] = nsolver
     # executions nobody scripted here: the repository's own 24 test programs rebuilt with hooks, heap events validated by TLC (HeapTrace)
     import repotests
